@@ -1386,11 +1386,12 @@ int32
 VSdelete(int32 f, /* IN: file handle */
          int32 vsid /* IN: vdata id i.e. ref */)
 {
-    void    *v;
-    vfile_t *vf = NULL;
-    void   **t  = NULL;
-    int32    key;
-    int32    ret_value = SUCCEED;
+    void      *v;
+    vfile_t   *vf = NULL;
+    void     **t  = NULL;
+    int32      key;
+    filerec_t *file_rec  = NULL; /* file record */
+    int32      ret_value = SUCCEED;
 
     /* clear error stack */
     HEclear();
@@ -1398,6 +1399,14 @@ VSdelete(int32 f, /* IN: file handle */
     /* check valid vdata id */
     if (vsid < -1)
         HGOTO_ERROR(DFE_ARGS, FAIL);
+
+    /* check for write-permission to file (as Vdelete does) before the
+       vdata is removed from the in-memory table */
+    file_rec = HAatom_object(f);
+    if (BADFREC(file_rec))
+        HGOTO_ERROR(DFE_ARGS, FAIL);
+    if (!(file_rec->access & DFACC_WRITE))
+        HGOTO_ERROR(DFE_BADACC, FAIL);
 
     /* get vdata file record */
     if (NULL == (vf = Get_vfile(f)))
